@@ -377,10 +377,9 @@ class C02:
                   "saveBytearrayS_ok). "
                   "Per-form lemmas as before: one memo key space for all PUT / GET widths and MEMOIZE (C02_memo_keys), every LONG1 "
                   "width and counted payload (C19_LONG1, C19_counted), the bytes()/bytearray() and _codecs.encode / "
-                  "bytearray(bytes) forms CPython emits below protocol 3/5 (C02_bytes_forms). PARTIAL: objects in which a memoized "
-                  "object occurs twice (the pickler then writes GET): the list-sharing half of the statement is FALSE for the code "
-                  "(C02_K1_witness: `[x, x]` with a non-empty list x decodes to `[x, []]`) - known finding K1; bytes below protocol 3 "
-                  "and bytearray below protocol 5 inside containers (written through a memoized global that later ones GET); lone "
+                  "bytearray(bytes) forms CPython emits below protocol 3/5 (C02_bytes_forms). PARTIAL: objects in which a CONTAINER "
+                  "occurs twice (the pickler then fetches a tuple, list or dict from the memo): the list half of the statement is FALSE "
+                  "for the code (C02_K1_witness: `[x, x]` with a non-empty list x decodes to `[x, []]`) - known finding K1; lone "
                   "surrogates at protocol 0 - known finding K4; the pure-Python pickler and pickletools.optimize variants. These are "
                   "decided per run by decoding what the three real CPython picklers emit for generated objects in all four modes and "
                   "comparing with the documented table, the decoder model agreeing with the implementation on every case.")
